@@ -6,7 +6,11 @@ Check @parse_complete.
 Check @option_is_recognised.
 Check @print_parse_roundtrip.
 Check @struct_parse_complete.
+Check @interpretation_stable.
+Check @attribute_readings.
 Print Assumptions parse_complete.
 Print Assumptions option_is_recognised.
 Print Assumptions print_parse_roundtrip.
 Print Assumptions struct_parse_complete.
+Print Assumptions interpretation_stable.
+Print Assumptions attribute_readings.
